@@ -10,7 +10,8 @@ Executable SPECIFICATION of aggregate queries (property C04), written from the p
 Nothing here keeps running state: every cell is computed from the complete list of its group's rows.
 `batch` returns the spec's answer for a whole batch run, or `none` where the property sentence does not fix
 the outcome:
-  * any evaluation error (WHERE, key, argument, transform, HAVING), an integer overflow of a partial sum,
+  * any evaluation error (WHERE, key, argument, transform, HAVING) — including a WHERE / HAVING value that is neither
+    BOOLEAN nor NULL, which has no truth value (the run reports an error, C03) —, an integer overflow of a partial sum,
     a non-numeric SUM/AVG/STDDEV argument, a non-BOOLEAN BOOL_AND argument, a non-TEXT STRING_AGG argument;
   * arguments of more than one type in one group (cannot arise for a typed column; for MIN/MAX/PERCENTILE the
     "value order of the argument's type" is then undefined — the derived cross-type order is finding D45);
@@ -37,11 +38,11 @@ def collect {α : Type} : List (Option α) → Option (List α)
 
 /-! ### rows and groups -/
 
-/-- WHERE on one row (`none`: evaluation fails) -/
+/-- WHERE on one row (`none`: evaluation fails, or the value is neither BOOLEAN nor NULL); NULL does not pass -/
 def passes (O : Oracles) (q : AggStmt) (env : Env) : Option Bool :=
   match q.filter with
   | none => some true
-  | some f => (okOf (eval O env f)).map (·.truthy)
+  | some f => (okOf (eval O env f)).bind (fun v => okOf (condHolds v))
 
 /-- GROUP BY key of one row; a statement without GROUP BY has the single key `[NULL]` -/
 def keyOf (O : Oracles) (q : AggStmt) (env : Env) : Option (List Value) :=
@@ -264,7 +265,7 @@ def accept (O : Oracles) (q : AggStmt) (key : List Value) (g : List Env) : Optio
   | some h =>
     match collect (q.havingAggs.map (fun (id, k) => (groupValue O q k g).map (fun v => (id, v)))) with
     | none => none
-    | some gvals => (okOf (eval O { groupKeys := keyBindings q key, groupValues := gvals } h)).map (·.truthy)
+    | some gvals => (okOf (eval O { groupKeys := keyBindings q key, groupValues := gvals } h)).bind (fun v => okOf (condHolds v))
 
 /-- DISTINCT: the first occurrence of every row -/
 def firstRows : List (List Value) → List (List Value)
